@@ -632,3 +632,23 @@ pub fn read_dir_files(dir: &Path) -> BTreeMap<String, Vec<u8>> {
     walk(dir, dir, &mut m);
     m
 }
+
+/// Run a prepared command with a wall-clock watchdog; returns the exit code (-1 signal, -2 timeout).
+pub fn run_cmd_timeout(mut c: Command, limit: Duration) -> i32 {
+    c.stdin(Stdio::null()).stdout(Stdio::null()).stderr(Stdio::null());
+    let Ok(mut child) = c.spawn() else { return -3 };
+    let start = Instant::now();
+    loop {
+        match child.try_wait() {
+            Ok(Some(st)) => return st.code().unwrap_or(-1),
+            Ok(None) => {}
+            Err(_) => return -3,
+        }
+        if start.elapsed() > limit {
+            let _ = child.kill();
+            let _ = child.wait();
+            return -2;
+        }
+        std::thread::sleep(Duration::from_millis(2));
+    }
+}
